@@ -107,7 +107,7 @@ def main() -> None:
                         "design_ref": f"DESIGN.md §3 {p}",
                     },
                     "level_note": "Trusted base: Python's ast parser; the hand-written semantics tables for numpy/scipy/h5py/pickle/multiprocessing/mpi4py calls in yawsa/effects.py and the rule modules; the CFG's may-raise model (calls, subscripts, raise, assert, import, for-headers, with enter/exit). A pass means the named structural clauses hold on the current source, not that the behaviour is proved.",
-                    "technique": "static analysis: " + c["technique"],
+                    "technique": "static analysis: " + c["technique"] + "; plus the generic rule R0 over every function of the anchored files (compiler symbol tables for name binding, attribute existence on receivers of inferred package types, signature fit of resolved internal calls, ignored parameters, flow between sibling roles, optional-member guards)",
                 }
             )
         elif p in NOT_APPLICABLE:
